@@ -5,4 +5,5 @@ CONSTANTS
   CloseFirst = TRUE
   ReadPipeFix = TRUE
   ErrPipeFix = TRUE
+  ReleaseAllFix = TRUE
 INVARIANT Reaped
